@@ -567,6 +567,17 @@ func checkCmd(args []string) int {
 				}
 			}
 		}
+		if reason == "cap" {
+			// the function was verified within the generation budget on the pinned tree and is not any more: like a
+			// solver timeout on a claimed obligation, the property is no longer shown for this code
+			violations++
+			exit = max(exit, 1)
+			os.MkdirAll(replayDir, 0o755)
+			rp := filepath.Join(replayDir, sanitizeName(n)+".replay.txt")
+			os.WriteFile(rp, []byte(fmt.Sprintf("obligation group: %s\nproperty: %s\nstatus: verification-condition generation for %s exceeded its budget (path cap / %s / %d feasibility queries); on the pinned tree the group was generated and discharged\n", n, *prop, fn, vc.GenTimeBudget, vc.GenPruneBudget)), 0o644)
+			say("VIOLATION property=%s replay=%s obligation=%s status=generation-budget-exceeded no-failing-input-found", *prop, rp, n)
+			continue
+		}
 		say("UNDECIDED property=%s group=%s function=%s reason=%s", *prop, n, fn, reason)
 	}
 	// static (syntactic) obligations, re-derived from the working tree
